@@ -106,26 +106,35 @@ def r_tag_table(ck: Checker) -> None:
     k_str = f"isinstance({tag}, str)"
     for lf in leaves:
         a = lf.assign
-        assigns = {norm(st.targets[0]): norm(st.value) for st in lf.stmts if isinstance(st, ast.Assign)}
         if k_str not in a:
             bad.append("does not test whether a tag is present")
             continue
-        czs = [v for k, v in assigns.items()]
-        cz = czs[-1] if czs else None
-        czname = [k for k in assigns][-1] if assigns else None
-        if a[k_str] and cz not in (f"TYPES.get({tag}, None)", f"TYPES.get({tag})"):
+        # the class variable: what the None-test / from_dict receiver names; its value is the last store on this path
+        stores: list[tuple[str, str]] = []
+        for st in lf.stmts:
+            if isinstance(st, ast.Assign) and len(st.targets) == 1 and isinstance(st.targets[0], ast.Name):
+                stores.append((st.targets[0].id, norm(st.value)))
+            elif isinstance(st, ast.AnnAssign) and isinstance(st.target, ast.Name) and st.value is not None:
+                stores.append((st.target.id, norm(st.value)))
+        tagged = (f"TYPES.get({tag}, None)", f"TYPES.get({tag})")
+        names = [n for n, v in stores if v in tagged or v == "cls"]
+        czname = names[-1] if names else None
+        cz = [v for n, v in stores if n == czname][-1] if czname else None
+        if czname is None:
+            raise Unsupported(f"{MIXIN}._deserialize: class variable not identified on path {a}", ds.node)
+        if a[k_str] and cz not in tagged:
             bad.append(f"tag present: class looked up as {cz}")
         if not a[k_str] and cz != "cls":
-            # default-then-overwrite form: clazz = cls ... if tag: clazz = TYPES.get(tag)
-            if "cls" not in czs:
-                bad.append(f"no tag: class is {cz} instead of the receiving class")
-        kn = k_none(czname) if czname else None
-        if kn and a.get(kn) is True and not (lf.outcome == "raise" and "ValueError" in (lf.val() or "")):
+            bad.append(f"no tag: class is {cz} instead of the receiving class")
+        kn = k_none(czname)
+        if a.get(kn) is True and not (lf.outcome == "raise" and "ValueError" in (lf.val() or "")):
             bad.append("unknown class name does not raise ValueError")
-        if kn and a.get(kn) is False and not (lf.outcome == "return" and f"{czname}.from_dict({vp}" in (lf.val() or "")):
+        if a.get(kn) is False and not (lf.outcome == "return" and f"{czname}.from_dict({vp}" in (lf.val() or "")):
             bad.append(f"known class: returns {lf.val()}")
-        if kn and kn not in a and a[k_str]:
+        if kn not in a and a[k_str]:
             bad.append("a tagged class name is used without checking that it is registered")
+        if kn not in a and not a[k_str] and not (lf.outcome == "return" and f"{czname}.from_dict({vp}" in (lf.val() or "")):
+            bad.append(f"untagged: returns {lf.val()}")
     what = "mixin _deserialize: the tagged class is looked up in TYPES (untagged: the receiving class), an unknown name raises, the instance is built by that class's from_dict"
     (ck.violation if bad else ck.holds)("R-TAG-TABLE", ds, ds.node, what, evaluations=len(leaves), **({"construct": f"{MIXIN}._deserialize: {bad[0]}"} if bad else {}))
 
